@@ -66,7 +66,7 @@ def tasks(tier):
                 hist("A", "sync", True, s0, first, allow=True)
     if quick:
         # second template (C01's T-guards machine), one fault anywhere, then a follow-up
-        for s0 in range(3):
+        for s0 in (1,):
             for engine, rtc in (("sync", True), ("async", True)):
                 out.append({"kind": "A", "engine": engine, "rtc": rtc, "allow": False, "s0": s0, "first": 0, "listener": False,
                             "send_events": ["go"], "calls": 2, "call_budgets": [1, 0], "policy": None, "actions": ["raise"],
